@@ -12,7 +12,7 @@ from ..facts import CannotDecide
 from ..ieval import ieval, NoEval
 from ..mir import Prov, show, callee_name
 from ..structured import listing, fmt, flat, Unstructured
-from ..analysis import events, cond_desc
+from ..analysis import events, cond_desc, drop_error_guards
 
 
 def detag(s):
@@ -76,8 +76,11 @@ def writer_rows(prog, path, _seen=()):
                 arm = lab
         name = e["name"]
         args = e["args"]
+        # a key written only under some further condition (other than the variant, and other than error exits) is optional:
+        # the reader has to cope with its absence
+        extra = [(d, lab) for d, lab in cond_desc(body, drop_error_guards(body, e["conds"])) if d != "discr(arg1)"]
         if re.search(KEYED, name):
-            rows.append((arm, strlit(args[1]), sh(args[2]), path))
+            rows.append((arm, strlit(args[1]), sh(args[2]), path if not extra else path + " [only if %s]" % extra[:1]))
         elif re.search(r"Serialize for &'a T>::serialize$|serde::Serialize::serialize$", name) and len(args) == 2 and "FlatMapSerializer" in sh(args[1]):
             flats.append((arm, sh(args[0])))
         elif name.endswith("::serde_serialize") and name not in _seen:
@@ -304,8 +307,11 @@ def run(c, prog, ctx):
         rows = keyed[ty][0]
         per_variant = {}
         tyinfo = ty_of(prog, ty)
+        optional = {}
         for a, k, v, via in rows:
             per_variant.setdefault(a, []).append(k)
+            if "[only if" in via:
+                optional.setdefault(a, []).append(k)
         names = {v["name"]: v["name"] for v in tyinfo["variants"]}
         table = {}
         bad = []
@@ -316,9 +322,14 @@ def run(c, prog, ctx):
             table[tuple(sorted(present_keys))] = outcome(final, present)
         for v in tyinfo["variants"]:
             ks = per_variant.get(v["name"], [])
-            got = table.get(tuple(sorted(ks)))
-            if got != v["name"]:
-                bad.append((v["name"], ks, got))
+            opt = optional.get(v["name"], [])
+            # every key set the writer can emit for this variant (optional keys present or not) must select it
+            for mask in product([0, 1], repeat=len(opt)):
+                drop = {k for k, b in zip(opt, mask) if b}
+                kk = [k for k in ks if k not in drop]
+                got = table.get(tuple(sorted(kk)))
+                if got != v["name"]:
+                    bad.append((v["name"], kk, got))
         unknown = sorted({r for r in table.values() if r is None or str(r).startswith("?")}, key=str)
         c.inst("R3.variant-selection", ty, not bad and not unknown, "each variant's written key set must select that variant: deviations %s; undecided outcomes %s; table size %d"
                % (bad, unknown, len(table)), V.f.where(), ty)
